@@ -1339,3 +1339,12 @@ class Hist:
 
 
 PARTS = [Codec, Loads, Ext, Hist]
+
+
+# link (integrator): the abstract extension model (coq/Ext) is tied to the raw JSON content model (coq/Content, coq/Json,
+# coq/Cli) through Link/Abs.v to_content / of_content; LinkPart compares to_content with the real _content on every run
+from props import link as _link
+COQ_PROPS = (list(COQ_PROPS) if isinstance(COQ_PROPS, (list, tuple)) else [COQ_PROPS]) + ['Props/C09link.v']
+THEOREMS = list(THEOREMS) + ['C09_from_to_content', 'C09_constructors_agree_content', 'C09_from_json_models_agree', 'C09_roundtrip_ext', 'C09_qtok_dec_float']
+if globals().get('TABLES'): TABLES = sorted(set(list(TABLES) + _link.TABLES))
+PARTS = list(PARTS) + [_link.LinkPart]
